@@ -175,6 +175,7 @@ def rule_code_table(ctx, rep, config="c-lib"):
                 sites.append((f, i, code_name[const_int(i.args[0])]))
     rep.cover(p, reach)
     matched = set()
+    modes = {}
     n = 0
     per_fn = {}
     for (f, i, cname) in sites:
@@ -188,6 +189,7 @@ def rule_code_table(ctx, rep, config="c-lib"):
                 ok = si
                 break
         if ok is not None:
+            modes.setdefault((cname, ok), []).append((key, i, [c for c in conds if "strict_p" in _atoms(c)]))
             matched.add((cname, ok))
             rep.ok("C10-codes", key, sample={"site": i.where(), "code": cname, "controlled_by": SPECS[cname][ok]})
             continue
@@ -204,6 +206,19 @@ def rule_code_table(ctx, rep, config="c-lib"):
                 cname, missing, [c for c in conds if set(_atoms(c)) & set(a for x in missing for a in _atoms(x))]), where=i.where(), witness=[i.where()] + conds)
         else:
             rep.broke("C10-codes", "site %s of %s is controlled by conditions of a structure the table does not know: %s" % (i.where(), cname, conds))
+    # a defect documented without reference to the strictness of the check is detected in both modes
+    for (cname, si), lst in sorted(modes.items()):
+        if any("strict_p" in _atoms(c) for c in SPECS[cname][si]):
+            continue
+        pols = set()
+        for (_, _, sc) in lst:
+            pols.add(tuple(sorted(sc)))
+        if () in pols or (("strict_p != 0",) in pols and ("strict_p == 0",) in pols):
+            rep.ok("C10-codes", "modes/%s/%d" % (cname, si + 1), nontrivial=False)
+        else:
+            key, i, sc = lst[0]
+            rep.violation("C10-codes", "modes/%s/%d" % (cname, si + 1), "%s is documented for every definition, but its only check runs under %s: the other mode accepts such a grammar" % (
+                cname, sc), where=i.where(), witness=[i.where()] + sc)
     for cname, specs in sorted(SPECS.items()):
         for si, spec in enumerate(specs):
             key = "table/%s/%d" % (cname, si + 1)
